@@ -29,6 +29,7 @@ type Req struct {
 	// Mode: "string" (Run) or "file" (RunFiles on a temp file) or "both"
 	Mode   string `json:"mode,omitempty"`
 	Budget int    `json:"budget,omitempty"` // instruction budget per run (0 = none)
+	Budgets []int `json:"budgets,omitempty"` // per-text instruction budgets
 	Arg    Node   `json:"arg,omitempty"`    // op-specific arguments
 }
 
@@ -181,11 +182,15 @@ func handleRun(req *Req) *Resp {
 		}
 	}
 	tmpdir := ""
-	for _, t := range req.Texts {
+	for ti, t := range req.Texts {
 		text := toText(t)
 		rr := RunRes{}
+		budget := req.Budget
+		if ti < len(req.Budgets) {
+			budget = req.Budgets[ti]
+		}
 		if req.Mode != "file" {
-			ms, p, st, steps, over := runSafe(v, text, req.Budget)
+			ms, p, st, steps, over := runSafe(v, text, budget)
 			rr.Panic, rr.Stack, rr.Steps, rr.Over = p, st, steps, over
 			rr.Ms = projMatches(ms)
 		}
